@@ -8,7 +8,7 @@ func init() {
 	Runners["C14"] = fileRunner(RunC14)
 	harness.Specs["C14"] = &harness.PropSpec{
 		ID: "C14", Test: "TestC14", Kind: "file", Level: "exploration",
-		Quick: 8000, Thorough: 500000,
+		Quick: 8000, Thorough: 250000,
 		Rule: "generated history H on (old max, prealloc), close, open with FlagUpdMaxSize and a generated new maximum (larger, smaller >= 64 KiB, equal, unbounded) x " +
 			"prealloc, then lock-state probe + BeginReadonly + Begin (content verification and capacity probe), further history K, close, plain open, verification; " +
 			"oracles: model equality across the resize, lock idle right after the open (no blocked Begin), header/allocator/OnOpen report the new limit, after growing " +
